@@ -138,8 +138,8 @@ func (r *Report) Finish() int {
 	seenKnown := map[string]bool{}
 	for _, v := range r.Violations {
 		if k := isKnown(v); k != nil {
-			if !seenKnown[k.ID] {
-				seenKnown[k.ID] = true
+			if !seenKnown[k.ID+"|"+k.Obligation] {
+				seenKnown[k.ID+"|"+k.Obligation] = true
 				fmt.Printf("KNOWN-FINDING: property=%s %s [%s] %s (%s)\n", r.Property, k.ID, v.Obligation, k.What, v.Pos)
 				knownHit = append(knownHit, map[string]string{"id": k.ID, "obligation": v.Obligation, "key": v.Key, "what": k.What, "pos": v.Pos})
 			}
@@ -204,6 +204,13 @@ func (r *Report) Finish() int {
 	}
 	seed := 0
 	fmt.Sscan(os.Getenv("VERIF_SEED"), &seed)
+	if r.Assumptions == nil {
+		r.Assumptions = []string{}
+	}
+	r.Assumptions = append(r.Assumptions, "the loaded packages are what the build compiles (no build tags in the module); go/types is correct")
+	if r.Declined == nil {
+		r.Declined = []string{}
+	}
 	ev := map[string]interface{}{
 		"property_id": r.Property,
 		"tier":        r.Tier,
@@ -225,5 +232,35 @@ func (r *Report) Finish() int {
 	if unlisted > 0 {
 		return 1
 	}
+	return 0
+}
+
+// DryResult is what a dry run prints (one JSON object on stdout).
+type DryResult struct {
+	Status     string         `json:"status"` // "ok" or "loaderror"
+	Violations []DryViolation `json:"violations"`
+	Error      string         `json:"error,omitempty"`
+}
+
+// DryViolation identifies a violation.
+type DryViolation struct {
+	Obligation string `json:"obligation"`
+	Key        string `json:"key"`
+	Undecided  bool   `json:"undecided"`
+	Pos        string `json:"pos"`
+}
+
+// FinishDry prints the violations as JSON and writes nothing.
+func (r *Report) FinishDry(loadErr error) int {
+	res := DryResult{Status: "ok"}
+	if loadErr != nil {
+		res.Status = "loaderror"
+		res.Error = loadErr.Error()
+	}
+	for _, v := range r.Violations {
+		res.Violations = append(res.Violations, DryViolation{v.Obligation, v.Key, v.Undecided, v.Pos})
+	}
+	b, _ := json.Marshal(res)
+	fmt.Println(string(b))
 	return 0
 }
